@@ -64,7 +64,7 @@ pub fn s0() -> SchemaSet {
         imports: vec![],
         comps: vec![complex("LeafB", vec![el("LeafBValue", TypeRef::b("string"))]), simple("CodeB", "string", vec![("maxLength", "5")])],
     };
-    SchemaSet { files: vec![a, b], wsdl: None, start: "a.xsd".into() }
+    SchemaSet { files: vec![a, b], wsdl: None, start: "a.xsd".into(), xs_is_default_namespace: false }
 }
 
 /// single-file seed
@@ -124,7 +124,7 @@ pub fn w0() -> SchemaSet {
         default_ns_style: false,
         address: "http://127.0.0.1:9/thing".into(),
     };
-    SchemaSet { files: vec![], wsdl: Some(w), start: "svc.wsdl".into() }
+    SchemaSet { files: vec![], wsdl: Some(w), start: "svc.wsdl".into(), xs_is_default_namespace: false }
 }
 
 /// Adds an operation to a WSDL seed: global elements `<Name>` / `<Name>Response`, messages, port
